@@ -76,3 +76,17 @@ Qed.
 Theorem lzma2_empty_preset_stored_refuted :
   l2_run 3 0 2 4096 (Some []) [97] [L2Unc 1] [5] = Ok ([], E_INVALID_INPUT).
 Proof. vm_compute. reflexivity. Qed.
+
+(* the preset variant is not vacuous either *)
+Example lzma2_roundtrip_preset_hyps :
+  let p := [1; 2; 3] in let data := [3; 97] in
+  let evs := [L2Sym (SLit 3); L2Sym (SLit 97); L2Lzma 2 7] in
+  p <> [] /\ zlen p <= 4096 /\ zlen p < l2_window_size 4096 /\ bytes_ok p = true /\ bytes_ok data = true /\
+  l2_no_end evs /\
+  lzma2_write 3 0 2 4096 (Some p) data evs = Ok [192; 0; 1; 0; 6; 93; 0; 1; 153; 61; 240; 0; 0; 0] /\
+  l2_run 3 0 2 4096 (Some p) data evs [1] = Ok (data, 0).
+Proof.
+  cbv zeta. split; [discriminate|]. split; [vm_compute; discriminate|]. split; [vm_compute; reflexivity|].
+  split; [reflexivity|]. split; [reflexivity|]. split; [|split; vm_compute; reflexivity].
+  intros ev Hin. cbn [In] in Hin. repeat (destruct Hin as [<- | Hin]; [discriminate|]). contradiction.
+Qed.
